@@ -7,8 +7,10 @@ import gen
 
 ID = "C25"
 THEOREMS = ["C25_int", "C25_int_default_base", "C25_int_min_refuted", "C25_ntoa_aton", "C25_aton_ntoa", "C25_ntop_pton_v4",
-            "C25_ipv4_mapped", "C25_entries", "C25_unix_from_to", "C25_unix_to_from", "C25_unix_to_from_exact",
-            "C25_hypotheses_nonvacuous"]
+            "C25_ipv6_text", "C25_ntop_pton_v6", "C25_ipv4_mapped", "C25_entries", "C25_flatten",
+            "C25_flatten_single_char_separator", "C25_flatten_bordered_separator_refuted", "C25_unix_from_to",
+            "C25_unix_to_from", "C25_unix_to_from_exact", "C25_hypotheses_nonvacuous", "C25_ipv6_nonvacuous",
+            "C25_flatten_nonvacuous"]
 IMPORTS = ("From Coq Require Import String.\nFrom Coq Require Import List NArith ZArith.\n"
            "From VRL Require Import Base.Bytes Base.Value Base.Lit Model.ConvRes Model.IntText Model.Ip Model.Entries "
            "Model.Flatten Model.UnixTs Model.TsText Corr.C25.\nLocal Open Scope string_scope.")
